@@ -96,7 +96,10 @@ PROFILES = {
         "mcT": [cfg(N=3, GenBal=(9, 9, 9), MaxVals=3, UnstakeTime=2, Amts={2}, Kinds={"stake", "unstake"}, MaxHeight=4, MaxTx=3, Dts={1, 2})],
         "sim": [cfg(N=3, GenBal=(9, 9, 3), GenVals=gv((1, 2)), MaxVals=2, UnstakeTime=2, Amts={1, 2, 3, 9}, Kinds={"stake", "unstake", "unjail"}, MaxHeight=9, MaxTx=3, Dts={0, 1, 2},
                     EvOn=True, MissOn=True, EvPowers={1, 2}, MaxExt=1, BurnNums={1, 2, 4}),
-                cfg(N=4, GenBal=(9, 9, 9, 9), MaxVals=4, UnstakeTime=1, Amts={2, 4}, Kinds={"stake", "unstake"}, MaxHeight=7, MaxTx=4, Dts={0, 1, 3})],
+                cfg(N=4, GenBal=(9, 9, 9, 9), MaxVals=4, UnstakeTime=1, Amts={2, 4}, Kinds={"stake", "unstake"}, MaxHeight=7, MaxTx=4, Dts={0, 1, 3}),
+                # several validators in the same unstaking-queue slot, forced unstakes (evidence) while they wait
+                cfg(N=3, GenBal=(9, 9, 9), GenVals=gv((1, 4), (2, 4), (3, 2)), MaxVals=3, UnstakeTime=3, Amts={2}, Kinds={"stake", "unstake"}, MaxHeight=6, MaxTx=3, Dts={1},
+                    EvOn=True, EvPowers={1})],
     },
     "C07": {
         "mc": [cfg(N=2, MaxVals=2, GenVals=gv((1, 4), (2, 2)), Kinds={"unstake"}, MaxHeight=2, MaxTx=1, EvOn=True, MissOn=True, EvPowers={0, 1, 2, 9}, MaxExt=1, BurnNums={0, 1, 2, 4},
@@ -104,7 +107,10 @@ PROFILES = {
         "sim": [cfg(N=3, GenBal=(9, 9, 9), GenVals=gv((1, 7), (2, 4), (3, 2)), MaxVals=3, Kinds={"stake", "unstake", "unjail"}, Amts={2, 5}, MaxHeight=6, MaxTx=2, EvOn=True, MissOn=True,
                     EvPowers={0, 1, 2, 3, 9}, MaxExt=2, BurnNums={0, 1, 2, 3, 4}, Window=2, FracDen=8, FracDS=3, FracDT=1, Dts={0, 1, 2}, MaxEvAge=1),
                 cfg(N=3, GenBal=(9, 9, 9), GenVals=gv((1, 7), (2, 4), (3, 2)), MaxVals=3, Kinds={"unstake"}, MaxHeight=6, MaxTx=1, EvOn=True, MissOn=True,
-                    EvPowers={1, 3}, MaxExt=1, BurnNums={1, 8}, Window=1, MinSignedNum=1, MinSignedDen=1, FracDen=8, FracDS=8, FracDT=8)],
+                    EvPowers={1, 3}, MaxExt=1, BurnNums={1, 8}, Window=1, MinSignedNum=1, MinSignedDen=1, FracDen=8, FracDS=8, FracDT=8),
+                # a downtime slash computed from a vote power that is older (larger) than the stake a burn left
+                cfg(N=2, GenBal=(9, 9), GenVals=gv((1, 8), (2, 8)), MaxVals=2, Kinds={"unjail"}, MaxHeight=6, MaxTx=1, MissOn=True, MaxExt=2, BurnNums={1, 2},
+                    Window=1, MinSignedNum=1, MinSignedDen=1, FracDen=4, FracDS=1, FracDT=2, JailDur=0)],
     },
     "C08": {
         "mc": [cfg(N=1, GenBal=(9,), GenVals=gv((1, 4)), MaxVals=1, Kinds={"unjail"}, MaxTx=1, MissOn=True, Window=3, MinSignedNum=1, MinSignedDen=2, MaxHeight=9, JailDur=1, FracDT=0),
@@ -112,7 +118,12 @@ PROFILES = {
         "sim": [cfg(N=2, GenBal=(9, 9), GenVals=gv((1, 8), (2, 4)), MaxVals=2, Kinds={"unjail", "stake", "unstake"}, Amts={2}, MaxTx=2, MissOn=True, Window=5, MinSignedNum=1, MinSignedDen=2,
                     MaxHeight=16, JailDur=1, FracDT=1, Dts={1}),
                 cfg(N=2, GenBal=(9, 9), GenVals=gv((1, 8), (2, 8)), MaxVals=2, Kinds={"unjail"}, MaxTx=1, MissOn=True, Window=4, MinSignedNum=3, MinSignedDen=4,
-                    MaxHeight=14, JailDur=0, FracDT=1, FracDen=8)],
+                    MaxHeight=14, JailDur=0, FracDT=1, FracDen=8),
+                # fraction * window = 1.5 (rounds half-even to 2) and 4.9 (rounds to 5): truncation would differ
+                cfg(N=2, GenBal=(9, 9), GenVals=gv((1, 8), (2, 8)), MaxVals=2, Kinds={"unjail"}, MaxTx=1, MissOn=True, Window=3, MinSignedNum=1, MinSignedDen=2,
+                    MaxHeight=12, JailDur=0, FracDT=1, FracDen=8),
+                cfg(N=1, GenBal=(9,), GenVals=gv((1, 8)), MaxVals=1, Kinds={"unjail"}, MaxTx=1, MissOn=True, Window=7, MinSignedNum=7, MinSignedDen=10,
+                    MaxHeight=20, JailDur=0, FracDT=1, FracDen=8)],
     },
     "C09": {
         "mc": [cfg(N=2, GenBal=(9, 9), GenVals=gv((1, 4), (2, 2)), MaxVals=2, Kinds={"unjail", "unstake", "stake"}, Amts={2}, MaxTx=2, MissOn=True, EvOn=True, EvPowers={1}, Window=1,
@@ -135,8 +146,8 @@ PROFILES = {
 }
 
 SIZES = {  # (sim traces per worker, depth, OneIn, sim timeout s, mc timeout s)
-    "quick": dict(num=40, depth=40, onein=12, simt=60, mct=150, maxbeh=1500),
-    "thorough": dict(num=400, depth=60, onein=12, simt=420, mct=1500, maxbeh=15000),
+    "quick": dict(num=40, depth=40, onein=12, simt=60, mct=150, maxbeh=1200, rich=120),
+    "thorough": dict(num=400, depth=60, onein=12, simt=420, mct=1500, maxbeh=15000, rich=4000),
 }
 
 
@@ -205,6 +216,29 @@ def validate(c, tr, d, label, dev=None):
     return res, divs
 
 
+# The seeded adversarial driver (code -> spec): shipped power reduction, large amounts, more
+# validators, longer histories; validated by the same monitor with these constants.
+RICH = cfg(N=5, PR=1000000, MinStake=1000000, MaxVals=3, UnstakeTime=2, Window=4, MinSignedNum=1, MinSignedDen=2, JailDur=1, MaxEvAge=2,
+           FracDen=100, FracDS=5, FracDT=1, Fee=100, GenBal=(50000000, 40000000, 30000000, 3000000, 999999),
+           GenVals=gv((1, 3000000), (2, 1000001)), DaoTokens=7000000, Amts={1}, BurnNums={0, 50, 100, 150}, MaxHeight=14, MaxTx=5)
+RICH2 = cfg(N=4, PR=1000000, MinStake=2500000, MaxVals=2, UnstakeTime=0, Window=3, MinSignedNum=7, MinSignedDen=10, JailDur=0, MaxEvAge=1,
+            FracDen=1000, FracDS=1000, FracDT=333, Fee=0, GenBal=(90000000, 9000000, 5000000, 2500000),
+            GenVals=gv((1, 7500000), (2, 2500000), (3, 2500000)), DaoTokens=0, Amts={1}, BurnNums={1, 999, 1000}, MaxHeight=12, MaxTx=4)
+
+
+def run_random(c, d, seed, nbeh, label):
+    rc = app_cfg(c, seed)
+    rc.update(maxHeight=c["MaxHeight"], maxTx=c["MaxTx"], burnNums=sorted(c["BurnNums"]))
+    cp = os.path.join(d, "rcfg_%s.json" % label)
+    with open(cp, "w") as fh:
+        json.dump(rc, fh)
+    tr = os.path.join(d, "rtrace_%s.ndjson" % label)
+    p = common.run_driver("posdrv", ["random", cp, str(seed), str(nbeh), tr], timeout=1800)
+    if p.returncode != 0:
+        raise common.ToolError("posdrv random died (rc=%s): %s" % (p.returncode, (p.stderr or p.stdout)[-2000:]))
+    return tr
+
+
 def attribute(prop, dv, line):
     """Which violations of `prop` does one DIV record amount to? Returns list of (sig, what)."""
     act = line["act"]
@@ -234,10 +268,32 @@ def attribute(prop, dv, line):
     return out
 
 
+def report(out, prop, c, seed, label, lines, divs, seen):
+    nonconf = {}
+    for dv in divs:
+        ln = lines[dv["line"] - 1]
+        for f in dv["div"]:
+            nonconf[f] = nonconf.get(f, 0) + 1
+        for sig, what in attribute(prop, dv, ln):
+            key = (sig, ln["act"]["a"], ln["act"].get("kind", ""), ln["res"]["class"])
+            if key in seen:
+                continue
+            seen.add(key)
+            beh = [x["act"] for x in lines if x["b"] == ln["b"] and x["i"] <= ln["i"]]
+            out.violation(sig=sig, what="%s (config %s, behaviour %d, step %d: %s)" % (what, label, ln["b"], ln["i"], json.dumps(ln["act"])),
+                          action=ln["act"]["a"], kind=ln["act"].get("kind", ""), result=ln["res"]["class"],
+                          diverged=sorted(dv["div"]), predicates=sorted(dv["bad"]),
+                          replay={"driver": "posdrv", "cfg": app_cfg(c, seed), "consts": {k: (sorted(v, key=str) if isinstance(v, (set, frozenset)) else v) for k, v in c.items()},
+                                  "actions": beh, "observed": ln["post"], "result": ln["res"]})
+    if nonconf:
+        out.notes.setdefault("nonconformance_by_variable", {}).update(nonconf)
+
+
 def run(prop, tier, seed):
     out = common.Outcome(prop, tier, seed)
     size = SIZES[tier]
     prof = PROFILES[prop]
+    seen_all = set()
     common.build_harness(["posdrv"])
     out.assumptions += [
         "the abstraction function (harness/app/state.go: raw iteration of the pos/auth stores) is trusted",
@@ -245,6 +301,12 @@ def run(prop, tier, seed):
         "amounts are small integers (PowerReduction set to the model's PR through the exported variable sdk.PowerReduction)",
     ]
     actcount, rescount = {}, {}
+    stages = out.notes.setdefault("stage_seconds", {})
+    t_ = [time.time()]
+
+    def lap(name):
+        stages[name] = round(stages.get(name, 0) + time.time() - t_[0], 1)
+        t_[0] = time.time()
     with common.Scratch() as d:
         # 1. the design: exhaustive on small constants, Dev = {}
         for i, c in enumerate(prof["mc"] + (prof.get("mcT", []) if tier == "thorough" else [])):
@@ -252,9 +314,11 @@ def run(prop, tier, seed):
             res = common.run_tlc("MC%d" % i, "MC%d.cfg" % i, d, timeout=size["mct"], files=files, coverage=(tier == "thorough"))
             common.require_tlc_ok(res, "%s exhaustive cfg %d" % (prop, i))
             out.add_tlc(res, "exhaustive %d: %s" % (i, {k: (sorted(v, key=str) if isinstance(v, (set, frozenset)) else v) for k, v in c.items() if BASE.get(k) != v}))
+            lap("exhaustive")
         # 2 + 3. spec -> code -> spec
         sims = prof["sim"]
-        picks = sims if tier == "thorough" else [sims[seed % len(sims)]]
+        picks = sims  # every simulation configuration in both tiers (they steer to different corners)
+        size = dict(size, maxbeh=max(300, size["maxbeh"] // len(picks)), num=max(10, size["num"] // len(picks)))
         for i, c in enumerate(picks):
             label = "%s_%d" % (prop, i)
             behs = simulate(c, d, seed * 7919 + i, size, label)
@@ -266,9 +330,12 @@ def run(prop, tier, seed):
             behs = behs[:size["maxbeh"]]
             if not behs:
                 raise common.ToolError("simulation produced no behaviours")
+            lap("simulate")
             tr = run_real(c, behs, d, seed, label)
+            lap("real_run")
             lines = [json.loads(x) for x in open(tr)]
             res, divs = validate(c, tr, d, label)
+            lap("trace_validation")
             out.cov["traces_validated_against_impl"] += len(behs)
             out.notes.setdefault("real_steps_validated", 0)
             out.notes["real_steps_validated"] += len(lines)
@@ -279,25 +346,25 @@ def run(prop, tier, seed):
                 rescount[rk] = rescount.get(rk, 0) + 1
             if behs:
                 out.sample({"behaviour_actions": behs[0][:12], "first_real_line": {k: lines[0][k] for k in ("act", "res")}})
-            seen = set()
-            nonconf = {}
-            for dv in divs:
-                ln = lines[dv["line"] - 1]
-                for f in dv["div"]:
-                    nonconf[f] = nonconf.get(f, 0) + 1
-                for sig, what in attribute(prop, dv, ln):
-                    key = (sig, ln["act"]["a"], ln["act"].get("kind", ""), ln["res"]["class"])
-                    if key in seen:
-                        continue
-                    seen.add(key)
-                    beh = [x["act"] for x in lines if x["b"] == ln["b"] and x["i"] <= ln["i"]]
-                    out.violation(sig=sig, what="%s (config %s, behaviour %d, step %d: %s)" % (what, label, ln["b"], ln["i"], json.dumps(ln["act"])),
-                                  action=ln["act"]["a"], kind=ln["act"].get("kind", ""), result=ln["res"]["class"],
-                                  diverged=sorted(dv["div"]), predicates=sorted(dv["bad"]),
-                                  replay={"driver": "posdrv", "cfg": app_cfg(c, seed), "consts": {k: (sorted(v, key=str) if isinstance(v, (set, frozenset)) else v) for k, v in c.items()},
-                                          "actions": beh, "observed": ln["post"], "result": ln["res"]})
-            if nonconf:
-                out.notes.setdefault("nonconformance_by_variable", {}).update(nonconf)
+            report(out, prop, c, seed, label, lines, divs, seen_all)
+        # code -> spec with rich values: seeded adversarial histories recorded from the real code
+        for j, rcfg_ in enumerate([RICH, RICH2]):
+            label = "%s_rich%d" % (prop, j)
+            nbeh = size["rich"]
+            tr = run_random(rcfg_, d, seed * 31 + j, nbeh, label)
+            lap("random_run")
+            lines = [json.loads(x) for x in open(tr)]
+            res, divs = validate(rcfg_, tr, d, label)
+            lap("random_validation")
+            out.cov["traces_validated_against_impl"] += nbeh
+            out.notes["real_steps_validated"] += len(lines)
+            out.notes["recorded_random_histories"] = out.notes.get("recorded_random_histories", 0) + nbeh
+            for ln in lines:
+                k = ln["act"]["a"] + ("/" + ln["act"].get("kind", "") if ln["act"]["a"] == "Tx" else "")
+                actcount[k] = actcount.get(k, 0) + 1
+                rk = k + ":" + ln["res"]["class"]
+                rescount[rk] = rescount.get(rk, 0) + 1
+            report(out, prop, rcfg_, seed * 31 + j, label, lines, divs, seen_all)
     out.notes["real_calls_by_action"] = actcount
     out.notes["real_results"] = rescount
     return out
